@@ -63,7 +63,9 @@ def names_of(k, ec):
     return [f"lon{k}", f"lat{k}"]
 
 
-def add_ecs(cube, ecs, shape, voff=0.0):
+def add_ecs(cube, ecs, shape, voff=0.0, ishift=None):
+    """`ishift` (per array axis, whole pixels) moves the 1-D Quantity / Time tables: entry i is the
+    unshifted table's formula at i - ishift[axis]."""
     from ndcube.extra_coords.table_coord import QuantityTableCoordinate
     from ndcube import ExtraCoords
     for k, ec in enumerate(ecs):
@@ -80,7 +82,8 @@ def add_ecs(cube, ecs, shape, voff=0.0):
             continue
         axes = ec["axes"]
         n = shape[axes[0]]
-        v = np.arange(n, dtype=float) ** 2 + 3 * np.arange(n) + 10 * k + voff
+        x = np.arange(n, dtype=float) - (ishift[axes[0]] if ishift and kind in ("quantity", "time") else 0)
+        v = x ** 2 + 3 * x + 10 * k + voff
         nm = names_of(k, ec)
         if kind == "quantity":
             cube.extra_coords.add(nm[0], axes[0], v * u.m, physical_types=f"custom:q{k}")
